@@ -41,8 +41,8 @@ const SPEC: Spec = Spec {
         "RetryUntilDelivered is generated only together with a backpressure handler that gives up after k <= 2 retries, so that no call can block",
         "the expired-connection buffer of a subscriber (default 128) is never filled by histories of <= 200 ops",
     ],
-    watchdog_quick_s: 1800,
-    watchdog_thorough_s: 14400,
+    watchdog_quick_s: 3600,
+    watchdog_thorough_s: 28800,
 };
 
 fn run(variant: Variant, case: &Case, obs: &mut Obs) -> Result<(), Failure> {
@@ -107,9 +107,9 @@ fn body(ctx: &mut Ctx) {
     logcap::install();
     exhaustive(ctx);
     let max_ops = ctx.scale(60, 200);
-    let n_local = ctx.scale(60_000, 800_000);
+    let n_local = ctx.scale(60_000, 400_000);
     ctx.proptest("random.local", cases(n_local), case_strategy(Weights::DELIVERY, max_ops), |c, obs| run(Variant::Local, c, obs));
-    let n_ipc = ctx.scale(4_000, 80_000);
+    let n_ipc = ctx.scale(4_000, 40_000);
     ctx.proptest("random.ipc", cases(n_ipc), case_strategy(Weights::DELIVERY, max_ops), |c, obs| run(Variant::Ipc, c, obs));
     logcap::uninstall_level();
 }
